@@ -16,6 +16,7 @@ C10, signed stage — DO bit on a zone signed with one key and an NSEC chain
 -/
 import HickoryVerif.Model.AuthZoneSignedDev
 import HickoryVerif.Proofs.C10
+import HickoryVerif.Proofs.C04
 
 namespace HickoryVerif.C10
 open HickoryVerif HickoryVerif.AuthZone HickoryVerif.AuthZone.SDev HickoryVerif.Spec.Rfc1034
@@ -354,5 +355,75 @@ theorem rrsigs_attached_additional {z : Zone} {o : LName} {q : Query} (d n : Boo
         obtain ⟨n', _, hn'⟩ := Option.bind_eq_some_iff.1 hadd
         exact additionalSearch_fromZone hn' rr hrr
   · cases hrr
+
+/-! ### the NSEC found by `closest_nsec` really covers the name -/
+
+/-- `<` of the code (`Name::cmp`) is the RFC 4034 §6.1 canonical order (C04 `cmp_is_canonical`) -/
+theorem nameLt_eq_canonLt (a b : LName) : nameLt a b = canonLt a b := by
+  unfold nameLt canonLt
+  rw [C04.cmp_is_canonical (asName a) (asName b) rfl rfl]
+
+theorem canonLt_asymm {a b : LName} (h : canonLt a b = true) : canonLt b a = false := by
+  unfold canonLt Spec.canonCompare at *
+  rw [Std.OrientedCmp.eq_swap (cmp := compare) (a := Spec.canonKey (asName b))]
+  cases hc : compare (Spec.canonKey (asName a)) (Spec.canonKey (asName b)) <;> simp_all
+
+theorem canonLt_of_not_lt_ne {a b : LName} (ha : lowerName a = a) (hb : lowerName b = b)
+    (h : canonLt a b = false) (hne : a ≠ b) : canonLt b a = true := by
+  unfold canonLt Spec.canonCompare at *
+  rw [Std.OrientedCmp.eq_swap (cmp := compare) (a := Spec.canonKey (asName b))]
+  cases hc : compare (Spec.canonKey (asName a)) (Spec.canonKey (asName b)) with
+  | lt => rw [hc] at h; simp at h
+  | gt => rfl
+  | eq =>
+    exfalso
+    have hk : Spec.canonKey (asName a) = Spec.canonKey (asName b) :=
+      Std.LawfulEqOrd.compare_eq_iff_eq.1 hc
+    unfold Spec.canonKey asName at hk
+    simp only at hk
+    have := C04.lower_map_reverse_inj hk
+    unfold lowerName at ha hb
+    rw [ha, hb] at this
+    exact hne this
+
+/--
+**Soundness of `closest_nsec`**: when the name owns no NSEC RRset itself (it does not exist, or
+is an empty non-terminal) and `closest_nsec` returns an NSEC, that NSEC *covers* the name in the
+sense of RFC 4035 §5.4 — its owner sorts strictly before the name and the name sorts before its
+next name (or the NSEC is the last of the chain).  Names lower-cased, as `LowerName` keeps them.
+(That such an NSEC is *found* for every name of the zone depends on `nsec_zone` having built a
+complete chain; that is validated by the oracle, not proved.)
+-/
+theorem closestNsec_covers {z : Zone} {name : LName} {r : RRset}
+    (hlow : lowerName name = name) (hzlow : ∀ x ∈ z, lowerName x.name = x.name)
+    (hnone : getRR z name T_NSEC = none) (h : closestNsec z name = some r) :
+    covers r name = true := by
+  have hrz := closestNsec_mem h
+  unfold closestNsec at h
+  have hp := List.find?_some h
+  simp only [Bool.and_eq_true, beq_iff_eq, Bool.not_eq_true'] at hp
+  obtain ⟨⟨hty, hnlt⟩, hint⟩ := hp
+  rw [nameLt_eq_canonLt] at hnlt
+  have hne : name ≠ r.name := by
+    intro he
+    exact get_none hnone r hrz he.symm hty
+  have hown : canonLt r.name name = true :=
+    canonLt_of_not_lt_ne hlow (hzlow r hrz) hnlt hne
+  unfold covers
+  cases hh : r.rdatas.head? with
+  | none => rw [hh] at hint; simp at hint
+  | some rd =>
+    rw [hh] at hint
+    dsimp only at hint
+    cases ht : rd.target with
+    | none => rw [ht] at hint; simp at hint
+    | some next =>
+      rw [ht] at hint
+      simp only [Bool.or_eq_true] at hint
+      rw [nameLt_eq_canonLt, nameLt_eq_canonLt] at hint
+      simp only [hty, beq_self_eq_true, Bool.true_and, Option.bind_some, ht, hown]
+      rcases hint with h1 | h2
+      · simp [h1]
+      · simp [canonLt_asymm h2]
 
 end HickoryVerif.C10
